@@ -117,7 +117,29 @@ def fn(name, **kw):
     return f
 
 
+NEW_RULES = [
+    Rule("R6-vacant-init", r"vacant_streams:\s*\{.*?vacant_streams\s*\}\s*,", "vacant: Ghost(Seq::new(MAX_STREAMS as nat, |i: int| i as u32)),", count=1,
+         note="constructor block of the vacant-id FIFO (publishes 0..MAX_STREAMS in order: decided by K on FullSyncMove) -> its ghost sequence"),
+    Rule("R6-cell-pin", r"UnsafeCell::new\(Box::pin\((\[[^\]]*\])\)\)", r"\1", count=2, note="UnsafeCell<Pin<Box<[T; N]>>> -> [T; N]"),
+    Rule("R6-wakers-init", r"wakers:\s*UnsafeCell::new\(Box::pin\(\(0\.\.MAX_STREAMS\)\.map\(\|_\| Option::<Waker>::None\)\.collect::<Vec<_>>\(\)\.try_into\(\)\.unwrap\(\)\)\),",
+         "waker_set: [false; MAX_STREAMS],", count=1, note="array of None wakers -> 'no waker registered' flags"),
+    Rule("R6-locks", r"(wakers_lock|streams_lock):\s*AtomicBool::new\(false\),", lambda m: ("wakers_held" if m.group(1) == "wakers_lock" else "streams_held") + ": Ghost(false),", count=2, note="lock words -> ghost held flags (initially free)"),
+    Rule("R9-name", r"streams_manager_name:\s*streams_manager_name\.into\(\),", "", count=1, note="log-only name dropped"),
+    Rule("R-bind-result", r"^\s*Self \{", "let r = Self {", count=1, note="the struct literal is bound to `r` so that ghost proof hints can follow it"),
+]
+
 FNS = [
+    # C06 / C10: a fresh manager has no live stream, no keep-running flag set (is_channel_open() is false until a stream exists and false again
+    # after a close), every id vacant in ascending order, the live list all-sentinel, the running count 0
+    fn("new", props=["C06", "C10", "C07"],
+       sig="pub fn new() -> (r: Self)", sig_anchor=r"pub fn new<IntoString: Into<String>>\(streams_manager_name: IntoString\) -> Self",
+       rules=NEW_RULES,
+       requires="MAX_STREAMS <= 0x7fff_ffff",
+       ensures="r.inv(), r.vacant@.len() == MAX_STREAMS, forall|i: int| 0 <= i < MAX_STREAMS ==> r.vacant@[i] == i as u32,"
+               "forall|i: int| 0 <= i < MAX_STREAMS ==> !r.keep_streams_running@[i] && !r.waker_set@[i] && r.used_streams@[i] == u32::MAX,"
+               "r.used_streams_count@ == 0",
+       tail="; proof { assert forall|x: u32| (x as int) < MAX_STREAMS implies r.vacant@.contains(x) by { assert(r.vacant@[x as int] == x); }"
+            " assert(r.vacant@.no_duplicates()); } r"),
     fn("sync_vacant_and_used_streams", props=["C10", "C03", "C06", "C07"],
        sig="pub fn sync_vacant_and_used_streams(&mut self)", sig_anchor=r"fn sync_vacant_and_used_streams\(&self\)",
        rules=[ALIAS, LOCK_S, UNLOCK_S,
